@@ -20,6 +20,7 @@ import (
 //	                              built from the elements, whatever their values: GetBuffer only logs
 //	                              the error of an element and goes on. Built twice, by AddRecordV2 and
 //	                              by AddRecord; the two must agree.)
+//	ie mut <ie> <v1> <v2|reset> -> as `ie enc` for the element's FINAL value (made with v1, then SetXxxValue(v2) or ResetValue())
 //	ie recbufx <elems> <k>     -> the same answer as `ie recbuf <elems>`: the record is built from the first k
 //	                              elements, GetBuffer is called, the others are appended by AddInfoElement
 //	                              Elements of a type without typed constructor (mkElem's default branch)
@@ -50,6 +51,14 @@ func encodeOne(e entities.InfoElementWithValue) ([]byte, int, error) {
 	buf := make([]byte, l)
 	err := entities.VerifEncodeElement(e, buf, 0)
 	return buf, l, err
+}
+
+// scribble overwrites a packet buffer the decoder has been given, as a caller that reads the next packet into the same
+// buffer does: decoded values (octet arrays, strings, addresses) must be copies, not views of the input
+func scribble(b []byte) {
+	for i := range b {
+		b[i] = 0xA5
+	}
 }
 
 func recordsToken(set entities.Set) string {
@@ -161,7 +170,89 @@ func recbufx(tok string, k int) string {
 	return fmt.Sprintf("buf %d %s", l2, hexs(b2))
 }
 
+// copyValue stores src's value into dst with dst's typed setter (both were made for the same information element)
+func copyValue(dst, src entities.InfoElementWithValue) bool {
+	switch dst.GetDataType() {
+	case entities.OctetArray:
+		dst.SetOctetArrayValue(src.GetOctetArrayValue())
+	case entities.Unsigned8:
+		dst.SetUnsigned8Value(src.GetUnsigned8Value())
+	case entities.Unsigned16:
+		dst.SetUnsigned16Value(src.GetUnsigned16Value())
+	case entities.Unsigned32:
+		dst.SetUnsigned32Value(src.GetUnsigned32Value())
+	case entities.Unsigned64:
+		dst.SetUnsigned64Value(src.GetUnsigned64Value())
+	case entities.Signed8:
+		dst.SetSigned8Value(src.GetSigned8Value())
+	case entities.Signed16:
+		dst.SetSigned16Value(src.GetSigned16Value())
+	case entities.Signed32:
+		dst.SetSigned32Value(src.GetSigned32Value())
+	case entities.Signed64:
+		dst.SetSigned64Value(src.GetSigned64Value())
+	case entities.Float32:
+		dst.SetFloat32Value(src.GetFloat32Value())
+	case entities.Float64:
+		dst.SetFloat64Value(src.GetFloat64Value())
+	case entities.Boolean:
+		dst.SetBooleanValue(src.GetBooleanValue())
+	case entities.MacAddress:
+		dst.SetMacAddressValue(src.GetMacAddressValue())
+	case entities.String:
+		dst.SetStringValue(src.GetStringValue())
+	case entities.DateTimeSeconds:
+		dst.SetUnsigned32Value(src.GetUnsigned32Value())
+	case entities.DateTimeMilliseconds:
+		dst.SetUnsigned64Value(src.GetUnsigned64Value())
+	case entities.Ipv4Address, entities.Ipv6Address:
+		dst.SetIPAddressValue(src.GetIPAddressValue())
+	default:
+		return false
+	}
+	return true
+}
+
+// mut: an element that lives on - made with <v1>, then given <v2> through its typed setter, or reset - is encoded; what
+// goes out (bytes and reported length) must be what a fresh element with the final value gives
+func mut(ie *entities.InfoElement, v1, v2 string) string {
+	e, err := mkElem(ie, v1)
+	if err != nil {
+		return "bad-op"
+	}
+	e.GetLength() // a caller may ask before it changes the value
+	if v2 == "reset" {
+		e.ResetValue()
+	} else {
+		e2, err := mkElem(ie, v2)
+		if err != nil || !copyValue(e, e2) {
+			return "bad-op"
+		}
+	}
+	buf, l, err := encodeOne(e)
+	if err != nil {
+		return fmt.Sprintf("err %d", l)
+	}
+	set := entities.NewSet(false)
+	set.PrepareSet(entities.Data, 256)
+	if err := set.AddRecord([]entities.InfoElementWithValue{e}, 256); err != nil {
+		return "adderr"
+	}
+	rec := set.GetRecords()[0]
+	if rec.GetRecordLength() != l || hexs(rec.GetBuffer()) != hexs(buf) {
+		return fmt.Sprintf("record-mismatch %s %d", hexs(rec.GetBuffer()), rec.GetRecordLength())
+	}
+	return fmt.Sprintf("ok %s %d", hexs(buf), l)
+}
+
 func engIE(a []string) string {
+	if len(a) == 4 && a[0] == "mut" {
+		ie, err := parseIE(a[1])
+		if err != nil {
+			return "bad-op"
+		}
+		return mut(ie, a[2], a[3])
+	}
 	if len(a) == 2 && a[0] == "recbuf" {
 		return recbuf(a[1])
 	}
@@ -218,7 +309,9 @@ func engIE(a []string) string {
 		}
 		cp := ieCP()
 		cp.VerifSetTemplate(1, 256, []*entities.InfoElement{ie})
-		set, err := cp.VerifDecodeDataSet(append(append([]byte{}, buf...), tail...), 1, 256)
+		in := append(append([]byte{}, buf...), tail...)
+		set, err := cp.VerifDecodeDataSet(in, 1, 256)
+		scribble(in) // the caller reuses its packet buffer: what was decoded must not live in it
 		if err != nil {
 			return "decerr"
 		}
@@ -231,6 +324,7 @@ func engIE(a []string) string {
 		cp := ieCP()
 		cp.VerifSetTemplate(1, 256, []*entities.InfoElement{ie})
 		set, err := cp.VerifDecodeDataSet(b, 1, 256)
+		scribble(b)
 		if err != nil {
 			return "err"
 		}
